@@ -22,7 +22,8 @@ REQUIRED_THEOREMS = ['clock24', 'clock24_partial', 'clock24_hour0_unresolved', '
                      'date_at_designator', 'date_at_designator_cultures', 'date_word_shift', 'night_alone_is_2am',
                      'night_attached_shift', 'time_of_today_pm_word', 'time_of_today_morning', 'tonight_examples',
                      'time_range_unambiguous', 'time_range_span', 'time_range_resolution_plain', 'time_range_resolution_ampm',
-                     'timerange_pm_overflow_witness', 'timerange_loose_timex_witness']
+                     'timerange_pm_overflow_witness', 'timerange_loose_timex_witness', 'time_range_duration_guard',
+                     'time_range_duration_repaired']
 RULE = ('unit: DateTimeFormatUtil over full ranges (luis_time/short_time 24x60x{none,0..59}, luis_date, format_*, '
         'to_pm, all_str_to_pm); match_to_time on every match of AtRegex/TimeRegex1..11/ConnectNumRegex over generated '
         'English time strings (digits x minutes x seconds x am/pm spellings x prefixes x suffixes x written forms); '
@@ -675,24 +676,44 @@ def unit_time_ranges(ctx, T):
                     for sn in snaps:
                         f += [dtres.b(sn['ok']), cps(sn['timex']), cps(sn['comment']),
                               dtres.dt_field(sn['future']) if sn['ok'] else '1,1,1,0,0,0']
-                    lines.append('\t'.join(['dt.m2tp', padded] + f))
+                    lines.append(f)
                     impl.append(a)
                     meta.append(src)
     finally:
         tp.parse = otp
+    import re as _re3
+    # variant of the duration text: repaired code prints integer minutes and an `…S` component
+    secs = '1' if any(a.startswith('1|') and _re3.search(r'\d+S\)$', common.uncps(a.split('|')[1])) for a in impl) else '0'
+    ctx.extra['time_range_variants']['integer seconds component'] = secs == '1'
+    lines = ['\t'.join(['dt.m2tp', padded, secs] + f) for f in lines]
     model = dtres.drive(lines)
     ctx.count('merge_two_time_points', len(lines))
     floats = 0
+
+    def fill_float(m):
+        """the model prints `{diff}` where the code prints the interpreter's float minutes"""
+        if not m.startswith('1|'):
+            return m, False
+        parts = m.split('|')
+        tx = common.uncps(parts[1])
+        if '{' not in tx:
+            return m, False
+
+        def rep(mm):
+            x = int(mm.group(1)) / 60 % 60
+            return str(float(x) if x % 1 else int(x))
+        parts[1] = cps(_re3.sub(r'\{(\d+)\}', rep, tx))
+        return '|'.join(parts), True
+
     for src, l, a, m in zip(meta, lines, impl, model):
-        if m == 'err:Float':
-            floats += 1          # a span with seconds: the code prints a float, not modelled
-            continue
+        m, was_float = fill_float(m)
+        floats += was_float
         if a.startswith('1|'):
             ctx.nontriv(('m2tp', src))
         if a != m:
             dtres.report(ctx, 'correspondence', 'merge_two_time_points', 'merge_two_time_points(%r): implementation %s, model %s' % (
                 src, a, m), failing_input={'op': l, 'source': src, 'implementation': a, 'model': m})
-    ctx.extra['time_range_spans_with_seconds_skipped'] = floats
+    ctx.extra['time_range_spans_with_float_minutes'] = floats
     # resolution of the ranges obtained above
     TT = T.TimeTypeConstants
     F = T.utilities.DateTimeFormatUtil
@@ -951,7 +972,8 @@ def pipeline(ctx, variant):
             if i != j and (ctx.thorough or (i * 7 + j) % 3 == 0):
                 for form in ('from %s to %s', '%s to %s'):
                     range_cases.append(('en-us', form % (a_, b_), REFS[(i + j) % len(REFS)]))
-    for q_ in ('five past 1 to 3pm', 'from five past one to 3pm', '5 past 1 to 3 pm', 'half past 3 to 1:05', '1:05 to 3pm'):
+    for q_ in ('five past 1 to 3pm', 'from five past one to 3pm', '5 past 1 to 3 pm', 'half past 3 to 1:05', '1:05 to 3pm',
+               'half past 3 pm to 5:00:30 pm', 'half past 3 to 5:00:20', 'noon to 5:00:30 pm', 'from noon to 1:15:45 pm'):
         range_cases.append(('en-us', q_, REFS[1]))
     ctx.extra['pipeline_cases'] = len(cases)
     results = dtres.run_queries([(culture_of[i], c[1], c[2]) for i, c in enumerate(cases)] + range_cases)
@@ -976,7 +998,16 @@ def pipeline(ctx, variant):
                 if not clock.match(st) or not clock.match(en):
                     bad, sig = 'start %r / end %r is not a clock time' % (st, en), 'timerange-pm-overflow'
                 elif tx.startswith('(') and not range_timex.match(tx):
-                    bad, sig = 'TIMEX %r is not (Thh[:mm[:ss]],Thh[:mm[:ss]],PT…)' % tx, 'timerange-loose-timex'
+                    bad = 'TIMEX %r is not (Thh[:mm[:ss]],Thh[:mm[:ss]],PT[nH][nM][nS])' % tx
+                    sig = 'timerange-float-minutes' if '.' in tx.split(',')[-1] else 'timerange-loose-timex'
+                else:
+                    # the duration must be end - start (modulo a day)
+                    mm = _re2.match(r'.*,PT(?:(\d+)H)?(?:(\d+)M)?(?:(\d+)S)?\)$', tx)
+                    if mm and tx.startswith('('):
+                        dur = int(mm.group(1) or 0) * 3600 + int(mm.group(2) or 0) * 60 + int(mm.group(3) or 0)
+                        sec = lambda t: int(t[0:2]) * 3600 + int(t[3:5]) * 60 + int(t[6:8])
+                        if (sec(en) - sec(st)) % 86400 != dur % 86400:
+                            bad, sig = 'duration %d s is not end - start (%s .. %s)' % (dur, st, en), 'timerange-duration-mismatch'
                 if bad:
                     rpend.append((sig, 'parse[en-us](%r, ref %s): value %r: %s' % (q, ref, v, bad),
                                   {'op': 'recognize_datetime', 'culture': 'en-us', 'query': q, 'reference': list(ref),
